@@ -51,6 +51,55 @@ def expected_get(seq, i):
     return ["Some(%d)" % seq[i]] if i < len(seq) else ["None"]
 
 
+def recheck_quad(seq, op, nums, val):
+    n = len(seq)
+    if op == "get" and len(nums) == 1:
+        return ["Some(%d)" % seq[nums[0]]] if nums[0] < n else ["None"]
+    if op in ("rank", "rank[interleaved]") and len(nums) == 2:
+        s, i = nums
+        return ["Some(%d)" % sum(1 for x in seq[:i] if x == s)] if s <= 3 and i <= n else ["None"]
+    if op in ("select", "select[interleaved]") and len(nums) == 2:
+        s, k = nums
+        occ = [p for p, x in enumerate(seq) if x == s]
+        return ["Some(%d)" % occ[k]] if s <= 3 and k < len(occ) else ["None"]
+    if op == "occs" and len(nums) == 1:
+        return ["Some(%d)" % seq.count(nums[0])] if nums[0] <= 3 else ["None"]
+    if op == "occs_smaller" and len(nums) == 1:
+        return ["Some(%d)" % sum(1 for x in seq if x < nums[0])] if nums[0] <= 3 else ["None"]
+    if op == "len":
+        return [str(n)]
+    return None
+
+
+def recheck_bits(seq, op, nums, val):
+    n = len(seq)
+    ones = [p for p, x in enumerate(seq) if x == 1]
+    zeros = [p for p, x in enumerate(seq) if x == 0]
+    if op == "get" and len(nums) == 1:
+        return ["Some(%s)" % ("true" if seq[nums[0]] else "false")] if nums[0] < n else ["None"]
+    if op in ("rank1", "rank1[interleaved]") and len(nums) == 1:
+        i = nums[0]
+        if i > n:
+            return ["None"]
+        return ["None", "Some(0)"] if n == 0 else ["Some(%d)" % sum(seq[:i])]
+    if op == "rank0" and len(nums) == 1:
+        i = nums[0]
+        if i > n:
+            return ["None"]
+        return ["None", "Some(0)"] if n == 0 else ["Some(%d)" % (i - sum(seq[:i]))]
+    if op in ("select1", "select1[interleaved]") and len(nums) == 1:
+        return ["Some(%d)" % ones[nums[0]]] if nums[0] < len(ones) else ["None"]
+    if op in ("select0", "select0[interleaved]") and len(nums) == 1:
+        return ["Some(%d)" % zeros[nums[0]]] if nums[0] < len(zeros) else ["None"]
+    if op == "n_ones":
+        return [str(len(ones))]
+    if op in ("n_zeros", "RankBin::n_zeros"):
+        return [str(len(zeros))]
+    if op == "bv_len":
+        return ["Some(%d)" % n]
+    return None
+
+
 def check_file(path, stats):
     cases, inputs, events = {}, {}, []
     with open(path, errors="replace") as f:
@@ -73,9 +122,8 @@ def check_file(path, stats):
         idx = e["idx"]
         if idx not in inputs or idx not in cases:
             continue
-        kind = kind_of(cases[idx].get("ty", ""))
-        if kind is None:
-            continue
+        ty = cases[idx].get("ty", "")
+        kind = kind_of(ty)
         seq = inputs[idx]
         op, args, got = e["op"], e["args"], e["got"]
         m = re.fullmatch(r"Val\((.*)\)", got)
@@ -83,6 +131,20 @@ def check_file(path, stats):
             continue
         val = m.group(1)
         nums = [int(x) for x in re.findall(r"\d+", args)]
+        if kind is None:
+            exp = None
+            if ty.startswith("RSQVector"):
+                exp = recheck_quad(seq, op, nums, val)
+            elif ty in ("RSNarrow", "RSWide"):
+                exp = recheck_bits(seq, op, nums, val)
+            if exp is None:
+                continue
+            stats["rechecked"] += 1
+            stats["by_op"][op] = stats["by_op"].get(op, 0) + 1
+            if val not in exp:
+                bad.append(dict(file=os.path.basename(path), case=ty, input=seq, op=op, args=args,
+                                rust_oracle_accepted=val, python_model_expects=exp))
+            continue
         if op == "get" and len(nums) == 1:
             exp = expected_get(seq, nums[0])
         elif op == "rank" and len(nums) == 2:
